@@ -6,7 +6,7 @@
 From Coq Require Import ZArith String Ascii List Bool.
 Require Import DS.Model.PyStr DS.Gen.GenNorm DS.Model.GC DS.Proofs.GCNormProofs DS.Proofs.GCProofs DS.Proofs.GCFaultProofs.
 Require Import DS.Model.GCPointer DS.Proofs.GCPointerProofs.
-Require Import DS.Model.Doc DS.Gen.GenMeta DS.Model.GCDoc DS.Proofs.GCDocProofs.
+Require Import DS.Model.Doc DS.Gen.GenDoc DS.Model.GCDoc DS.Proofs.GCDocProofs.
 Import ListNotations.
 Open Scope string_scope.
 Open Scope Z_scope.
@@ -90,7 +90,7 @@ Proof. exact marker_keep. Qed.
 Print Assumptions C07_marker_keep.
 
 (* ---- STRUCTURED damage: the file is still a good JSON / Avro document, but a key is gone, null, or of another type.
-   The readers' demands are the shapes regenerated from the source (Gen/GenMeta.v); `ext` is the one external validation
+   The readers' demands are the shapes regenerated from the source (Gen/GenDoc.v); `ext` is the one external validation
    (Schema.__post_init__), any function.
 
    The metadata document.  collect() works from metadata_manager.refresh() = json.loads + _dict_to_metadata of the current
